@@ -13,6 +13,7 @@ import ast
 import hashlib
 import itertools
 import json
+import re
 import os
 import sys
 from fractions import Fraction
@@ -660,10 +661,99 @@ RESHAPE = {2: "reshape_nN33_nx_to_N3_n3nx", 3: "reshape_nNN333_nx_to_N3N3_n3nx",
 NPOW = {2: "N", 3: "NN", 4: "NNN"}
 
 
+# strict statement discipline for the six prepare_normal_equation_* functions: every statement must be of a known kind
+# AND sit at the known nesting level (top level / atom-batch loop / snapshot-batch loop inside the atom-batch loop);
+# anything else (an extra `if`, a `pop()`, an accumulation moved out of its loop, ...) is UNTRANSLATABLE
+FOR_ATOM = "for begin_i, end_i in zip(begin_batch_atom, end_batch_atom):"
+FOR_SNAP = "for begin, end in zip(begin_batch, end_batch):"
+SOLVER_STMTS = [
+    # (regex on the statement head, allowed loop nestings)
+    (r"N = N3 // 3$", ["top"]), (r"N3 = disps\.shape\[1\]$", ["top"]),
+    (r"NN = N \* N$|NN = N \*\* 2$|NNN = N \*\* 3$", ["top"]),
+    (r"n_compr_fc\d = compact_compress_mat_fc\d\.shape\[1\]$", ["top"]),
+    (r"n_batch = [N0-9n_comprfc /+*()]+$", ["top"]),
+    (r"n_batch = min\(N, n_batch\)$", ["top"]),
+    (r"n_batch = min\(N, verif_int\('SYMFC_VERIF_SOLVER_NBATCH', n_batch\)\)$", ["top"]),
+    (r"begin_batch_atom, end_batch_atom = get_batch_slice\(N, N // n_batch\)$", ["top"]),
+    (r"begin_batch, end_batch = get_batch_slice\(disps\.shape\[0\], batch_size\)$", ["top"]),
+    (r"const_fc\d = -?[0-9. /()-]+$", ["top"]),
+    (r"compact_compress_mat_fc\d \*= const_fc\d$", ["top-before-loop"]),
+    (r"compact_compress_mat_fc\d /= const_fc\d$", ["top-after-loop"]),
+    (r"mat\d\d = np\.zeros\(\(n_compr_fc\d, n_compr_fc\d\), dtype=float\)$", ["top-before-loop"]),
+    (r"mat\dy = np\.zeros\(n_compr_fc\d, dtype=float\)$", ["top-before-loop"]),
+    (re.escape(FOR_ATOM) + "$", ["top"]), (re.escape(FOR_SNAP) + "$", ["atom"]),
+    (r"n_atom_batch = end_i - begin_i$", ["atom"]),
+    (r"decompr_idx = \(atomic_decompr_idx_fc\d\[begin_i \* N+:end_i \* N+, None\] \* \d+ \+ np\.arange\(\d+\)\[None, :\]\)\.reshape\(-1\)$", ["atom"]),
+    (r"compr_mat_fc\d = reshape_\w+\(compact_compress_mat_fc\d\[decompr_idx\], N, n_atom_batch\)$", ["atom"]),
+    (r"disps_N3N3 = set_disps_N3N3\(disps\[begin:end\], sparse=False\)$", ["snap"]),
+    (r"X\d = dot_product_sparse\(.*compr_mat_fc\d, use_mkl=use_mkl, dense=True\)\.reshape\(\(-1, n_compr_fc\d\)\)$", ["snap"]),
+    (r"y = forces\[begin:end, begin_i \* 3:end_i \* 3\]\.reshape\(-1\)$", ["snap"]),
+    (r"mat\d\d \+= X\d\.T @ X\d$", ["snap"]), (r"mat\dy \+= X\d\.T @ y$", ["snap"]),
+    (r"del X\d$", ["snap"]),
+    (r"mat\d\d = compress_eigvecs_fc\d\.T @ mat\d\d @ compress_eigvecs_fc\d$", ["top-after-loop"]),
+    (r"mat\dy = compress_eigvecs_fc\d\.T @ mat\dy$", ["top-after-loop"]),
+    (r"XTX = .*$", ["top-after-loop"]), (r"XTy = .*$", ["top-after-loop"]),
+    (r"return \(XTX, XTy\)$", ["top-after-loop"]),
+    (r"if verbose:$", ["top", "atom", "snap"]), (r"print\(.*\)$", ["verbose"]),
+    (r"t\w* = time\.time\(\)$", ["top", "atom", "snap"]),
+]
+
+
+def strict_solver_statements(fn, rel):
+    def head(st):
+        return ast.unparse(st).split("\n")[0] if isinstance(st, (ast.If, ast.For, ast.While, ast.With, ast.Try)) \
+            else ast.unparse(st)
+    seen_loop = [False]
+
+    def visit(stmts, ctx):
+        for st in stmts:
+            if isinstance(st, ast.Expr) and isinstance(st.value, ast.Constant) and isinstance(st.value.value, str):
+                continue                                   # docstring
+            h = head(st)
+            ok = False
+            for rx, where in SOLVER_STMTS:
+                if re.match(rx, h):
+                    here = ctx
+                    allowed = set()
+                    for w in where:
+                        if w == "top-before-loop":
+                            if ctx == "top" and not seen_loop[0]:
+                                allowed.add("top")
+                        elif w == "top-after-loop":
+                            if ctx == "top" and seen_loop[0]:
+                                allowed.add("top")
+                        else:
+                            allowed.add(w)
+                    if here in allowed:
+                        ok = True
+                        break
+            if not ok:
+                fail(rel, st, f"{fn.name}: statement `{h[:90]}` is not of a known kind at nesting level `{ctx}`")
+            if isinstance(st, ast.For):
+                if h == FOR_ATOM:
+                    if st.orelse:
+                        fail(rel, st, "for/else")
+                    visit(st.body, "atom")
+                    seen_loop[0] = True
+                elif h == FOR_SNAP:
+                    if st.orelse:
+                        fail(rel, st, "for/else")
+                    visit(st.body, "snap")
+            elif isinstance(st, ast.If):
+                if st.orelse:
+                    fail(rel, st, f"{fn.name}: `if verbose` with an else branch")
+                visit(st.body, "verbose")
+            elif isinstance(st, (ast.While, ast.With, ast.Try)):
+                fail(rel, st, f"{fn.name}: unexpected compound statement")
+    visit(fn.body, "top")
+    rec(rel, fn, f"{fn.name}: every statement is of a known kind at its known nesting level", True)
+
+
 def extract_solver(name, orders):
     rel = f"solvers/solver_{name}.py"
     mod = parse(rel)
     fn = find_func(mod, f"prepare_normal_equation_{name}", rel)
+    strict_solver_statements(fn, rel)
     src = ast.unparse(fn)
     params = [a.arg for a in fn.args.args]
     consts = {}
